@@ -131,6 +131,18 @@ class Ctx(object):
             setattr(self, key, z3.Const(fresh_name('g_' + name), sort_of(ty)))
         return getattr(self, key)
 
+    def ghost_in(self, name, ty):
+        """A ghost argument (existentially quantified in the precondition): when the function is
+        verified, a fixed arbitrary constant; at a call site, the witness the caller holds -- the
+        ghost result of the same name of an earlier call (e.g. the position map returned by build)."""
+        if self.proving:
+            return z3.Const('ghost_in!' + name, sort_of(ty))
+        aux = getattr(self, 'aux', None) or {}
+        w = aux.get('ghost_outs_by_name', {}).get(name)
+        if w is None:
+            w = z3.Const(fresh_name('no_witness_' + name), sort_of(ty))
+        return w
+
     def forall(self, decls, body, patterns=None):
         """Universally quantified clause of a contract.  decls: [(name, z3 sort)].
         Proving: the bound variables become fresh constants (skolemisation) and the body is
